@@ -223,3 +223,8 @@ RULES = [
     Rule("C18.H3", rule_H3, floor=1, doc="file-name components"),
     Rule("C18.H4", rule_H4, floor=3, doc="collection config"),
 ]
+
+from sa import exits as _exits  # noqa: E402
+
+RULES.append(Rule("C18.RX", _exits.make_rule("C18", "C18.RX", _exits.SCOPES["C18"]), floor=1,
+                  doc="rejection conditions: the anchored functions refuse inputs only under the conditions confirmed on the pinned tree (E16)"))
